@@ -74,7 +74,7 @@ def check(run):
         else:
             rc, out, err = vlib.harness("seg", ["malformed", "120" if run.tier == "quick" else "1500"], run.seed, timeout=1800)
             import json
-            srecs = [json.loads(l) for l in out.splitlines() if l.strip().startswith("{")]
+            srecs = [json.loads(l) for l in out.split("\n") if l.strip().startswith("{")]
             seg_n = len(srecs)
             for r in srecs:
                 outcomes[(r.get("entry"), r.get("outcome"))] = outcomes.get((r.get("entry"), r.get("outcome")), 0) + 1
